@@ -100,6 +100,79 @@ fn emit_step(site: &str, before: &Obs, after: &Obs, tr: &mut Tracker) {
     );
 }
 
+// ---------------------------------------------------------------------------------------------
+// Manual cutoff API calls between steps.  Public API read from the source:
+//   Qmc:            `increase_cutoff_to(c)` (documented as "so long as the new value is larger"),
+//                   `set_cutoff(c)`, trait `SwapManagers::set_op_cutoff(c)` (= set_cutoff)
+//   QmcIsingGraph:  `set_cutoff(c)`, trait `set_op_cutoff(c)` (= set_cutoff); no increase_cutoff_to
+// `increase_cutoff_to` is called with c below / equal / above the current cutoff; the raw setters are only
+// ever called with c >= the current cutoff (lowering through them is the caller's own doing, outside C12).
+// Oracle right after the call: cutoff == max(previous, c); container padded to it and never shrunk;
+// n unchanged and <= cutoff; container length <= cutoff.
+// ---------------------------------------------------------------------------------------------
+fn manual_oracle(call: &str, c: usize, before: &Obs, after: &Obs) -> Result<(), String> {
+    obj_oracle(call, before.cutoff, after)?;
+    let want = before.cutoff.max(c);
+    if after.cutoff != want {
+        return Err(format!("{}({}) on cutoff {}: cutoff is {} instead of {} (n = {})", call, c, before.cutoff, after.cutoff, want, after.n));
+    }
+    if after.n != before.n || after.occ[..before.occ.len().min(after.occ.len())] != before.occ[..before.occ.len().min(after.occ.len())] {
+        return Err(format!("{}({}) changed the operators", call, c));
+    }
+    if after.len != before.len.max(want) {
+        return Err(format!("{}({}): container length {} instead of {}", call, c, after.len, before.len.max(want)));
+    }
+    Ok(())
+}
+
+/// c below / equal / above `cutoff`
+fn pick_target(gen: &mut SplitMix64, cutoff: usize) -> (usize, &'static str) {
+    match gen.below(5) {
+        0 | 1 => (gen.below(cutoff.max(1) as u64) as usize, "below"),
+        2 => (cutoff, "equal"),
+        _ => (cutoff + 1 + gen.below(3) as usize, "above"),
+    }
+}
+
+fn manual_call_q(gen: &mut SplitMix64, q: &mut Q) {
+    let before = obs_q(q);
+    match gen.below(4) {
+        0 | 1 => {
+            let (c, how) = pick_target(gen, before.cutoff);
+            q.increase_cutoff_to(c);
+            let after = obs_q(q);
+            stat(&format!("manual_generic_increase_cutoff_to_{}", how), 1);
+            emit(how != "equal", &format!("inccut {} {} {}", c, before.cutoff, bits(&before.occ)), &format!("{} {} {}", after.cutoff, after.len, after.n), Some(manual_oracle("increase_cutoff_to", c, &before, &after)));
+        }
+        k => {
+            // raw setters: upwards only
+            let c = before.cutoff + gen.below(3) as usize;
+            if k == 2 {
+                q.set_cutoff(c);
+            } else {
+                qmc::sse::parallel_tempering::SwapManagers::set_op_cutoff(q, c);
+            }
+            let after = obs_q(q);
+            stat(if k == 2 { "manual_generic_set_cutoff_up" } else { "manual_generic_set_op_cutoff_up" }, 1);
+            emit(c > before.cutoff, &format!("setcut {} {} {}", c, before.cutoff, bits(&before.occ)), &format!("{} {} {}", after.cutoff, after.len, after.n), Some(manual_oracle(if k == 2 { "set_cutoff" } else { "set_op_cutoff" }, c, &before, &after)));
+        }
+    }
+}
+
+fn manual_call_g(gen: &mut SplitMix64, g: &mut G) {
+    let before = obs_g(g);
+    let c = before.cutoff + gen.below(3) as usize;
+    let trait_call = gen.coin();
+    if trait_call {
+        qmc::sse::parallel_tempering::SwapManagers::set_op_cutoff(g, c);
+    } else {
+        g.set_cutoff(c);
+    }
+    let after = obs_g(g);
+    stat(if trait_call { "manual_ising_set_op_cutoff_up" } else { "manual_ising_set_cutoff_up" }, 1);
+    emit(c > before.cutoff, &format!("setcut {} {} {}", c, before.cutoff, bits(&before.occ)), &format!("{} {} {}", after.cutoff, after.len, after.n), Some(manual_oracle(if trait_call { "set_op_cutoff" } else { "set_cutoff" }, c, &before, &after)));
+}
+
 #[derive(Clone, Copy, Debug, PartialEq, Eq)]
 enum Mix {
     Plain,
@@ -162,6 +235,9 @@ fn run_ising(gen: &mut SplitMix64, steps: usize, init_cutoff_kind: usize, mix: M
     }
     let label = format!("ising-{:?}", mix).to_lowercase();
     for _ in 0..steps {
+        if gen.chance(1, 6) {
+            manual_call_g(gen, &mut g);
+        }
         let before = obs_g(&g);
         let r = catch(|| {
             if mix == Mix::Split {
@@ -231,6 +307,9 @@ fn run_generic(gen: &mut SplitMix64, steps: usize, one_spin: bool, tr: &mut Trac
     let use_parts = gen.coin();
     let label = format!("generic{}{}{}", if one_spin { "-1spin" } else { "" }, if loops { "-loop" } else { "" }, if heat { "-hb" } else { "" });
     for _ in 0..steps {
+        if gen.chance(1, 4) {
+            manual_call_q(gen, &mut q);
+        }
         let before = obs_q(&q);
         let r = catch(|| {
             if use_parts {
@@ -271,17 +350,9 @@ fn run_generic(gen: &mut SplitMix64, steps: usize, one_spin: bool, tr: &mut Trac
             }
         }
     }
-    // raising the cutoff by hand
-    let before = obs_q(&q);
-    let target = before.cutoff + gen.below(5) as usize;
-    q.increase_cutoff_to(target);
-    let after = obs_q(&q);
-    emit(
-        false,
-        &format!("setcut {} {} {}", target, before.cutoff, bits(&before.occ)),
-        &format!("{} {} {}", after.cutoff, after.len, after.n),
-        Some(if after.cutoff >= before.cutoff && after.len >= after.cutoff && after.n == before.n { Ok(()) } else { Err("increase_cutoff_to".into()) }),
-    );
+    // and once more at the end of the run, with operators in the string
+    manual_call_q(gen, &mut q);
+    manual_call_q(gen, &mut q);
 }
 
 // ---------------------------------------------------------------------------------------------
@@ -545,11 +616,7 @@ fn run_history_generic(gen: &mut SplitMix64, nactions: usize, tr: &mut Tracker) 
                 gb = false;
             }
             _ => {
-                let before = obs_q(&a);
-                let target = before.cutoff + gen.below(6) as usize;
-                a.increase_cutoff_to(target);
-                let after = obs_q(&a);
-                emit(false, &format!("setcut {} {} {}", target, before.cutoff, bits(&before.occ)), &format!("{} {} {}", after.cutoff, after.len, after.n), Some(obj_oracle("increase_cutoff_to", before.cutoff, &after)));
+                manual_call_q(gen, &mut a);
             }
         }
     }
